@@ -76,6 +76,10 @@ def dominating_tests(fn: ast.FunctionDef, target: ast.AST) -> list[tuple[str, bo
     return out
 
 
+def rcls_file(prog) -> str:
+    return prog.func(REC, "WorkflowRecovery._recover_workflow").file
+
+
 def run(ctx, rep) -> None:
     prog, T = ctx.prog, ctx.st
     rep.rule("C10.R1", "the sweep only pushes: no store_stage / update_workflow_status / status write / processed-mark on any path of _recover_workflow; recovery.py calls only read APIs of the store")
@@ -306,6 +310,39 @@ def run(ctx, rep) -> None:
     rep.check(ok, "C10.R8", "swept workflow statuses", f"statuses = {sorted(sel) if sel is not None else 'not a literal set'}" + ("" if ok else
               ": a workflow in an explicit waiting status (BUFFERED / PAUSED / SUSPENDED) or a finished one is handed to _recover_workflow, which re-queues StartStage for its NOT_STARTED initial stages - it starts although it is waiting for a slot / a resume"),
               gw.file, crit[0].lineno if crit else gw.node.lineno, disc="swept-statuses")
+
+    # ---- R9: a workflow that has not started is restarted through StartWorkflow only ---------------------------------------
+    rep.rule("C10.R9", "in _recover_workflow every StartStage / StartTask / RunTask is constructed only where the workflow's status cannot be NOT_STARTED (a NOT_STARTED workflow gets StartWorkflow, whose gates - concurrency limit, cancel-before-start, expiry - must not be bypassed); StartWorkflow only where it is NOT_STARTED")
+    from ..dom import raw_conditions_at as _rca
+    from ..statuspred import status_set as _ss9
+    rw = prog.func(REC, "WorkflowRecovery._recover_workflow").node
+    ALL9 = frozenset(T.members)
+    n9 = 0
+    for c in ast.walk(rw):
+        if not (isinstance(c, ast.Call) and isinstance(c.func, ast.Name) and c.func.id in ("StartStage", "StartTask", "RunTask", "StartWorkflow")):
+            continue
+        implied = ALL9
+        from ..dom import canon_fact as _cf9
+        for t_, tr_ in _rca(rw, c):
+            for atom, atr in _cf9(t_, tr_):
+                try:
+                    ae = ast.parse(atom, mode="eval").body
+                except SyntaxError:
+                    continue
+                for subj in ("full_workflow.status", "workflow.status"):
+                    ss_ = _ss9(ae if atr else ast.UnaryOp(op=ast.Not(), operand=ae), subj, T)
+                    if ss_ is not None:
+                        implied = implied & ss_
+        n9 += 1
+        if c.func.id == "StartWorkflow":
+            ok = implied <= frozenset({"NOT_STARTED"})
+            rep.check(ok, "C10.R9", "StartWorkflow is re-queued only for a NOT_STARTED workflow", f"workflow status at the push: {sorted(implied) if len(implied) < 12 else 'unconstrained'}", rcls_file(prog), c.lineno, disc="startworkflow-only-not-started")
+        else:
+            ok = "NOT_STARTED" not in implied
+            rep.check(ok, "C10.R9", f"{c.func.id} is never built for a workflow that has not started", f"workflow status at the push: {'NOT_STARTED excluded' if ok else 'NOT_STARTED possible'}" + ("" if ok else
+                      ": initial stages have no upstreams, so they always look startable - the sweep starts them directly, bypassing StartWorkflow (a workflow the concurrency limit would keep BUFFERED runs; a NOT_STARTED workflow whose stages all ran can never store its outcome)"),
+                      rcls_file(prog), c.lineno, disc=f"no-stage-start-before-workflow:{c.func.id}")
+    rep.floor("message constructions in _recover_workflow", n9, 4)
 
     # ---- R6 -------------------------------------------------------------------------------------
     from ..statuspred import status_set
